@@ -21,7 +21,10 @@ Idempotency (necessary structural condition only):
         and re-emits its events.
   C39.4 the duplicate test becomes true: behind the "not seen" edge every path to a successful return passes
         the call that records the id for that test (has_seen <-> add_dependency, contains_key on the
-        processed-operations map <-> GroupCrdt::process).  NOT decided: equality of states.
+        processed-operations map <-> GroupCrdt::process).
+  C39.5 the pairing is real: `has_seen` reads only orderer fields that `add_dependency` writes; GroupCrdt::process
+        (through its callees) inserts into the `operations` map that the contains_key test reads.
+        NOT decided: equality of states.
 """
 import re
 
@@ -363,6 +366,54 @@ def rule_idempotent(ctx):
                    "processed (and its events emitted) a second time" % (b.root, short, " / ".join(r.rsplit("::", 1)[-1] for r in recs)),
                    site=d.loc(), key="C39.4:%s:%s-recorded" % (hname, short))
     ctx.floor("C39.4", "duplicate tests paired with their recorder", n_rec, 3)
+    # C39.5 — the pairing is real: a duplicate test may only depend on state that its recorder establishes.
+    def self_fields(body, written):
+        out = set()
+        for bb, k, pl, rv, st in body.assigns():
+            cands = []
+            if written:
+                if pl.local == 1 and pl.proj:
+                    cands.append(pl)
+                if rv["k"] == "ref" and rv.get("mut"):
+                    cands.append(Place(rv["place"]))
+            else:
+                for key in ("op", "a", "b"):
+                    if isinstance(rv.get(key), dict):
+                        q = op_place(rv[key])
+                        if q is not None:
+                            cands.append(q)
+                if "place" in rv:
+                    cands.append(Place(rv["place"]))
+            for q in cands:
+                if q.local == 1:
+                    fs = [e[2] for e in q.proj if isinstance(e, list) and e[0] == "f" and e[2]]
+                    if fs:
+                        out.add(fs[0])
+        return out
+    for test, recs in (("p2panda_spaces::encryption::orderer::EncryptionOrdererState::has_seen", RECORDERS["has_seen"]),):
+        tb = prog.bodies_at(test)
+        rb = [x for r in recs for x in prog.bodies_at(r)]
+        if len(tb) != 1 or not rb:
+            ctx.ob("anchor", test, False, "anchor-missing: duplicate test / recorder bodies (%d / %d)" % (len(tb), len(rb)))
+            continue
+        reads = self_fields(tb[0], False)
+        writes = set()
+        for x in rb:
+            writes |= self_fields(x, True)
+        ctx.ob("C39.5", "has_seen depends only on state that add_dependency establishes", bool(reads) and reads <= writes,
+               "`has_seen` reads the orderer fields %s but `add_dependency` only writes %s: the answer for a recorded message "
+               "can still be `not seen` (e.g. while it waits in a queue), so a re-delivered message is processed a second time"
+               % (sorted(reads), sorted(writes)), site=tb[0].loc(), key="C39.5:has_seen-reads-what-add_dependency-writes")
+        ctx.sample({"has_seen reads": sorted(reads), "add_dependency writes": sorted(writes)})
+    # contains_key(operations): GroupCrdt::process (through its callees) inserts into a field named `operations`
+    roots2 = prog.bodies_at(RECORDERS["contains_key"][0])
+    ins = False
+    for x in reachable_bodies(prog, roots2, stay=lambda y: y.crate == "p2panda_auth"):
+        for c in sem_calls(x):
+            if c.name.endswith("HashMap::insert") and "operations" in origins(x, c.args[0]).fields:
+                ins = True
+    ctx.ob("C39.5", "GroupCrdt::process records the operation id in `operations`", ins,
+           "no HashMap::insert into a field `operations` reachable from GroupCrdt::process", key="C39.5:process-records-operations")
 
 
 def run(ctx):
